@@ -1,7 +1,7 @@
 """C18 - adaptive force-bias step length stays in range and shrinks with uncertainty.
 
 Grid enumeration through the real ``AdaptiveForceBias.update_delta()``: (min,max) x reference
-variance x variance inputs (0, 1e-300 ... 1e300; scalar and per-coordinate arrays) x schemes x
+variance {1e-6 .. 1e6} x variance inputs (0, 1e-300 ... 1e300; scalar and per-coordinate arrays) x schemes x
 update functions.  Variances are realised through committee arrays in ``calc.results`` where a
 committee can realise them, and through a registered scheme function otherwise.
 """
@@ -20,7 +20,7 @@ from qv.runner import Acc, Report, pmap
 
 PID = "C18"
 RANGES = [(0.05, 0.15), (1e-3, 1.0), (0.1, 0.1), (0.0, 2.5)]
-REFS = [1e-6, 0.1, 10.0]
+REFS = [1e-6, 0.1, 10.0, 400.0, 2500.0, 1e6]
 
 
 def vgrid(ref):
@@ -59,8 +59,8 @@ def task(arg):
     ulp4 = 4 * np.spacing(max(abs(lo), abs(hi), 1e-300))
     for ref, func in itertools.product(REFS, ("tanh", "exp")):
         grid = vgrid(ref)
-        for route in ("registered-scheme-scalar", "registered-scheme-array", "committee-forces", "committee-forces-tiny", "committee-forces-sign-disagreement", "committee-energy", "no-committee-data-forces", "no-committee-data-energy", "reference-changed-after-construction"):
-            scheme = "energy" if route in ("committee-energy", "no-committee-data-energy", "registered-scheme-scalar") else "forces"
+        for route in ("registered-scheme-scalar", "registered-scheme-array", "committee-forces", "committee-forces-tiny", "committee-forces-sign-disagreement", "committee-energy", "no-committee-data-forces", "no-committee-data-energy", "reference-changed-after-construction", "committee-data-appears-later-forces", "committee-data-appears-later-energy"):
+            scheme = "energy" if route in ("committee-energy", "no-committee-data-energy", "registered-scheme-scalar", "committee-data-appears-later-energy") else "forces"
             if route == "reference-changed-after-construction":
                 sim, atoms = make(lo, hi, ref * 7.0, "energy", func)
                 sim.reference_variance = ref  # the public attribute is changed by the user
@@ -106,6 +106,35 @@ def task(arg):
                             V(f"C18/{func}/{route}/increases-with-variance", f"committee spread grew (coefficient {js(lastv[0][0])} -> {js(vr[0])}) but delta rose {js(lastv[1][0])} -> {js(d[0])}; {where0}")
                             break
                         lastv = (vr, d)
+                    continue
+                if route.startswith("committee-data-appears-later"):
+                    # the step length is adapted once before the calculator holds any committee
+                    # results (as the first step of a run does), then the results appear
+                    with warnings.catch_warnings():
+                        warnings.simplefilter("ignore")
+                        sim.update_delta()
+                    counters["evaluations"] += 1
+                    d = np.asarray(sim.delta, dtype=float)
+                    if not np.allclose(d, lo + span / 2, rtol=1e-12, atol=1e-300):
+                        V(f"C18/{func}/{route}/reference-variance-not-used", f"no results yet: delta {js(d)} is not the midpoint {lo + span / 2}; {where0}")
+                    for v, want, name in ((0.0, hi, "not-max-at-zero-variance"), (1e3 * ref, lo, "not-min-at-large-variance")):
+                        atoms.get_potential_energy()
+                        if scheme == "forces":
+                            if v >= 1:
+                                continue
+                            atoms.calc.results["forces_comm"] = committee_forces(np.full((3, 3), v))
+                        else:
+                            if not np.isfinite(v * 2 * len(atoms)):
+                                continue
+                            atoms.calc.results["energies"] = np.array([5.0 + v * len(atoms), 5.0 - v * len(atoms)])
+                        with warnings.catch_warnings():
+                            warnings.simplefilter("ignore")
+                            sim.update_delta()
+                        counters["evaluations"] += 1
+                        counters["nontrivial"] += 1
+                        d = np.asarray(sim.delta, dtype=float)
+                        if not np.allclose(d, want, rtol=0, atol=1e-9 * max(span, 1e-300) + ulp4):
+                            V(f"C18/{func}/{route}/{name}", f"committee results appeared after a first adaptation without any: variance {v} gives delta {js(d)}, expected {want}; {where0}")
                     continue
                 if route.startswith("no-committee-data"):
                     # first adapt delta away from the midpoint, then lose the committee data
@@ -198,7 +227,7 @@ def run(tier, seed):
     rep.coverage = {
         "evaluations": acc.n("evaluations"),
         "distinct_nontrivial": acc.n("nontrivial"),
-        "rule": "one evaluation = one update_delta() call for one (min,max) x reference variance x update function x route (registered scheme scalar/array, committee forces, committee energies, no committee data) x variance value in {0,1e-300,ref/1e3,ref/2,ref,2ref,10ref,1e3ref,1e300}; non-trivial = 0 < v < 1000 ref",
+        "rule": "one evaluation = one update_delta() call for one (min,max) x reference variance x update function x route (registered scheme scalar/array, committee forces incl. tiny and sign-disagreeing members, committee energies, no committee data, committee data appearing after a first adaptation without any, reference changed after construction) x variance value in {0,1e-300,ref/1e3,ref/2,ref,2ref,10ref,1e3ref,1e300}; non-trivial = 0 < v < 1000 ref",
         "exhaustive": True,
         "samples": acc.samples[:2],
     }
